@@ -144,13 +144,40 @@ def chunk_worker(job):
             elif it["kind"] == "include":
                 src, files = INCLUDES[it["cls"]]
                 target = "//:t"
-                with open(os.path.join(root, "COND"), "w") as f:
+                base = root
+                if it.get("sibling"):
+                    # another COND file, loaded first (or second) in the same invocation, includes a VALID file under the
+                    # same relative path string; the file under test lives in package c
+                    base = os.path.join(root, "c")
+                    os.makedirs(base)
+                    os.makedirs(os.path.join(root, "s"))
+                    with open(os.path.join(root, "s", "vals.cond"), "w") as f:
+                        f.write("CMD = 'true'\n")
+                    with open(os.path.join(root, "s", "link.cond"), "w") as f:
+                        f.write("CMD = 'true'\n")
+                    with open(os.path.join(root, "s", "nothere.cond"), "w") as f:
+                        f.write("CMD = 'true'\n")
+                    with open(os.path.join(root, "s", "vals.py"), "w") as f:
+                        f.write("CMD = 'true'\n")
+                    firstline = src.splitlines()[0]
+                    with open(os.path.join(root, "s", "COND"), "w") as f:
+                        f.write(firstline + "\nrun_command(name='t', run='true')\n")
+                    order = ["//s:t", "//c:t"] if it["sibling"] == 1 else ["//c:t", "//s:t"]
+                    with open(os.path.join(root, "COND"), "w") as f:
+                        f.write("group(name='t', deps=%r)\n" % order)
+                with open(os.path.join(base, "COND"), "w") as f:
                     f.write(src)
                 for rel, content in files.items():
-                    p = os.path.normpath(os.path.join(root, rel))
+                    if it.get("sibling") and rel.startswith("lib/"):
+                        p = os.path.normpath(os.path.join(root, rel))
+                    else:
+                        p = os.path.normpath(os.path.join(base, rel))
+                    if False:
+                        pass
+                    p = p
                     os.makedirs(os.path.dirname(p), exist_ok=True)
                     if isinstance(content, tuple):
-                        os.symlink(os.path.normpath(os.path.join(root, content[1])), p)
+                        os.symlink(os.path.normpath(os.path.join(base, content[1])), p)
                     else:
                         with open(p, "w") as f:
                             f.write(content)
@@ -249,6 +276,8 @@ def main(tier):
     reps = 2 if tier == "quick" else 6
     for _ in range(reps):
         items += [{"kind": "include", "cls": c} for c in INCLUDES] + [{"kind": "pyfail", "cls": c} for c in PYFAIL]
+        items += [{"kind": "include", "cls": c, "sibling": sb} for c in INCLUDES for sb in (1, 2)
+                  if c not in ("outside", "outsideviasymlink", "okprojectrelative")]
     chunk = max(40, len(items) // (C.NPROC * 3))
     rows = []
     for r in C.fork_map(chunk_worker, [(items[i:i + chunk], i) for i in range(0, len(items), chunk)], timeout=3000):
